@@ -314,6 +314,9 @@ def retP (vm : Vm) : Except Stop Vm := do
   let nfp ← rdP v (fp - 1)
   .ok { v with gp := gp.asAddr, ip := rip.asAddr, pp := pp.asInt, sp := fp - 4, fp := nfp.asInt }
 
+/-- slot `j` of the stack array (used by the statements about frames; no handler calls it) -/
+def slot (vm : Vm) (j : Int) : Slot := if j < 0 then .unknown else vm.stack[j.toNat]?.getD .unknown
+
 def liftE {α} (r : Except Stop α) : M α := match r with | .ok a => pure a | .error e => throw e
 
 /-- `sp++; vm_check_stack; stack[sp] = {ADDR, a}` -/
